@@ -11,7 +11,8 @@ Extracted (and re-checked on every run) from fuel-tx/src/transaction:
   * input.rs `Input::prepare_sign`: every variant delegates to its struct's `prepare_sign`;
   * chargeable_transaction.rs `prepare_sign` (body, every input, every output) and `UniqueIdentifier::id`
     (cached id first; clone; prepare_sign; witnesses cleared; compute_transaction_id), `cached_id`;
-  * mint.rs `id` (input_contract / output_contract prepare_sign) and `cached_id`, `MintMetadata::compute`;
+  * mint.rs `id` (input_contract / output_contract prepare_sign) and `cached_id`, `MintMetadata::compute`
+    (the order of effects of the six `precompute` bodies: tools/gen/precompute.py);
   * types.rs `compute_transaction_id` (chain id big-endian, then `to_bytes`), fuel-crypto hasher.rs (`Sha256`),
     fuel-types `ChainId::to_be_bytes`;
   * `AsField for Empty<T>`: `as_mut_field` returns `None`.
@@ -117,7 +118,6 @@ def main():
         "ifletSome(id)=self.cached_id(){returnid;}letmutclone=self.clone();clone.input_contract.prepare_sign();clone.output_contract.prepare_sign();crate::transaction::compute_transaction_id(chain_id,&mutclone)")
     pins["mint.cached_id"] = (norm(fn_body(src, "cached_id", "mint cached_id")), "self.metadata.as_ref().map(|m|m.id)")
     pins["mint.metadata"] = (norm(fn_body(src, "compute", "MintMetadata::compute")), "letid=tx.id(chain_id);Self{id}")
-    pins["mint.precompute"] = (norm(fn_body(src, "precompute", "mint precompute")), "self.metadata=None;self.metadata=Some(MintMetadata::compute(self,chain_id));Ok(())")
     src = strip_comments(read(TX + "types.rs"))
     pins["compute_transaction_id"] = (norm(fn_body(src, "compute_transaction_id", "types.rs compute_transaction_id")),
         "letmuthasher=fuel_crypto::Hasher::default();hasher.input(chain_id.to_be_bytes());hasher.input(tx.to_bytes().as_slice());hasher.finalize()")
